@@ -524,6 +524,9 @@ class IterativeIASolverBaseClass(IASolverBaseClass):
         # Help the type system knowing that at this point Ns is a Sequence[int]
         assert (not isinstance(Ns, int))
 
+        # Clear any previous precoder (including the cached full_F)
+        self._clear_precoder_filter()
+
         # Create the precoder variable
         self._F = np.empty(self.K, dtype=np.ndarray)
 
@@ -533,8 +536,9 @@ class IterativeIASolverBaseClass(IASolverBaseClass):
             Hkk = self._get_channel(k, k)
             # The second variable returned by least_right_singular_vectors
             # has the corresponds to the most significant singular
-            # vectors.
-            _, V1, _ = least_right_singular_vectors(Hkk, self.Nr[k] - Ns[k])
+            # vectors. Hkk has Nt[k] right singular vectors and we keep
+            # Ns[k] of them.
+            _, V1, _ = least_right_singular_vectors(Hkk, self.Nt[k] - Ns[k])
             self._F[k] = V1 / np.linalg.norm(V1, 'fro')
 
         # Method called before the _updateW method
